@@ -134,6 +134,12 @@ class Interp:
 
     def apply_closure(self, clo, args, depth=0):
         """call a closure value produced by evaluating a closure expression"""
+        if isinstance(clo, tuple) and len(clo) == 2 and clo[0] == "__fn":
+            return self.call_fn(clo[1], list(args), depth + 1)
+        if isinstance(clo, tuple) and len(clo) == 2 and clo[0] == "__ctorfn":
+            return ("__some", args[0]) if clo[1] == "core::option::Option::Some" else Var(clo[1], list(args))
+        if clo == ("__corefn", "char_from_u8") and len(args) == 1 and isinstance(args[0], int):
+            return Ch(chr(args[0]))
         if not (isinstance(clo, tuple) and len(clo) == 3 and clo[0] == "__closure"):
             raise Unsupported("not a closure")
         _, node, cenv = clo
@@ -271,8 +277,15 @@ class Interp:
                 return Var(e.get("ctor_of") or d)
             if (e.get("dk") or "") in ("Fn", "AssocFn") and d in self.f.fns:
                 return ("__fn", d)
+            if (e.get("dk") or "") in ("Fn", "AssocFn") and d == "core::convert::From::from":
+                ty = self.f.ty(e.get("ty")) or ""
+                if "-> char" in ty and "u8" in ty:
+                    return ("__corefn", "char_from_u8")
             if d in self.builtins:
                 return self.builtins[d](self, [])
+            cfn = self.f.fns.get(d)
+            if cfn is not None and cfn.get("kind") in ("const", "static") and cfn.get("hir") is not None and depth < self.max_depth:
+                return self.ev(cfn["hir"], {}, depth + 1)      # a crate constant: its initialiser
             if self.free_opaque:
                 return Opaque(d)
             raise Unsupported("path %s" % d)
@@ -543,6 +556,51 @@ class Interp:
                 return self.builtins[key](self, recv + args)
         if c in ("alloc::vec::Vec::<T>::new", "alloc::vec::Vec::<T>::with_capacity") or decl in ("alloc::vec::Vec::<T>::new", "alloc::vec::Vec::<T>::with_capacity"):
             return []
+        # ---- a small model of str / String ------------------------------------------------------------------------
+        if decl in ("alloc::string::String::new", "alloc::string::String::with_capacity") or c in ("alloc::string::String::new", "alloc::string::String::with_capacity"):
+            return ""
+        if e.get("k") == "mcall" and (decl.startswith("alloc::str::<impl str>::") or decl.startswith("core::str::<impl str>::") or
+                                      decl.startswith("alloc::string::String::") or decl.startswith("alloc::slice::<impl [") or
+                                      decl.startswith("alloc::str::<impl alloc::slice::Join")):
+            v = self.ev(e["recv"], env, depth)
+            args = [self.ev(a, env, depth) for a in e.get("args") or []]
+
+            def as_text(x):
+                if isinstance(x, Ch):
+                    return x.c
+                if isinstance(x, str):
+                    return x
+                raise Unsupported("string pattern %r" % (x,))
+            if isinstance(v, str):
+                if name == "replace" and len(args) == 2:
+                    return v.replace(as_text(args[0]), as_text(args[1]))
+                if name == "split" and len(args) == 1:
+                    return v.split(as_text(args[0]))
+                if name == "contains" and len(args) == 1:
+                    return as_text(args[0]) in v
+                if name == "starts_with" and len(args) == 1:
+                    return v.startswith(as_text(args[0]))
+                if name == "ends_with" and len(args) == 1:
+                    return v.endswith(as_text(args[0]))
+                if name in ("len",) and not args:
+                    return len(v.encode("utf-8"))
+                if name == "is_empty" and not args:
+                    return v == ""
+                if name in ("to_string", "to_owned", "as_str", "clone", "into_boxed_str") and not args:
+                    return v
+                if name == "chars" and not args:
+                    return [Ch(ch) for ch in v]
+                if name == "bytes" and not args:
+                    return list(v.encode("utf-8"))
+                if name == "char_indices" and not args:
+                    out_, off_ = [], 0
+                    for ch in v:
+                        out_.append((off_, Ch(ch)))
+                        off_ += len(ch.encode("utf-8"))
+                    return out_
+            if isinstance(v, list) and name in ("join", "concat"):
+                if all(isinstance(x, str) for x in v):
+                    return (as_text(args[0]) if args else "").join(v)
         # the `?` operator: Try::branch / FromResidual::from_residual on Result and Option
         if decl == "core::ops::try_trait::Try::branch":
             v = self.ev(e["args"][0], env, depth)
@@ -644,6 +702,9 @@ class Interp:
                     v["i"] += 1
                     return ("__some", v["__iter"][v["i"] - 1])
                 return None
+            if isinstance(v, list):
+                # an iterator obtained from chars() / iter() and stored in a local: next() consumes from the front
+                return ("__some", v.pop(0)) if v else None
             raise Unsupported("next on %r" % (v,))
         # constructors
         if (e.get("dk") or "").startswith("Ctor"):
@@ -771,6 +832,13 @@ class Interp:
         raise Unsupported("call %s" % (c or decl))
 
 
+def _fold(it, recv, args, depth):
+    acc = args[0]
+    for x in list(recv):
+        acc = it.apply_closure(args[1], [acc, x], depth)
+    return acc
+
+
 def _chars(it, recv, args, depth):
     if not isinstance(recv, str):
         raise Unsupported("chars on non-string")
@@ -795,10 +863,18 @@ def _any(it, recv, args, depth):
     return False
 
 
+def _filter(it, recv, args, depth):
+    return [x for x in list(recv) if it._bool(it.apply_closure(args[0], [x], depth))]
+
+
 ITER_BUILTINS = {"chars": _chars, "take": _take, "all": _all, "any": _any,
+                 "map": lambda it, r, a, d: [it.apply_closure(a[0], [x], d) for x in list(r)],
+                 "filter": _filter,
                  "enumerate": lambda it, r, a, d: [(i, x) for i, x in enumerate(list(r))],
                  "iter": lambda it, r, a, d: list(r), "into_iter": lambda it, r, a, d: list(r),
                  "skip": lambda it, r, a, d: list(r)[a[0]:], "rev": lambda it, r, a, d: list(reversed(list(r))),
+                 "fold": lambda it, r, a, d: _fold(it, r, a, d), "peek": lambda it, r, a, d: (("__some", list(r)[0]) if list(r) else None),
+                 "peekable": lambda it, r, a, d: r, "by_ref": lambda it, r, a, d: r,
                  "collect": lambda it, r, a, d: list(r), "cloned": lambda it, r, a, d: list(r), "copied": lambda it, r, a, d: list(r),
                  "first": lambda it, r, a, d: (("__some", list(r)[0]) if list(r) else None),
                  "last": lambda it, r, a, d: (("__some", list(r)[-1]) if list(r) else None)}
